@@ -39,6 +39,12 @@ fn header_value(r: &mut impl Rng, d_in: Option<u64>, d_out: Option<u64>, h_ms: u
         7 => (Some("18446744073709551616".into()), "overflow"),
         8 => (Some(["abc", "", "1e3", "0x10", "12ms", "١٢٣"][r.gen_range(0..6)].into()), "non-numeric"),
         9 => (Some(format!("-{}", r.gen_range(0..1000))), "negative"),
+        10 if r.gen_bool(0.5) => {
+            // far beyond 64 bits (29 and more digits, still below 2^128): absent like any other
+            // value that does not fit, whatever its low-order part would read as
+            let n = (1u128 << 64) * 1_000_000_000 * r.gen_range(1..6u128) + if r.gen_bool(0.5) { 0 } else { r.gen_range(0..3_000_000_000u128) };
+            (Some(n.to_string()), "overflow")
+        }
         10 => (Some(format!(" {} ", r.gen_range(1..100) * MS)), "padded"),
         _ => (Some((r.gen_range(1..(2 * hi.max(2))) * MS).to_string()), "random"),
     }
@@ -135,7 +141,7 @@ fn run(input: RunInput) -> ScenFuture {
             let burn_ms: u64 = if busy_run && !busy_call && r_busy.gen_bool(0.25) { r_busy.gen_range(5..200) } else { 0 };
             let h_us = if burn_ms > 0 { h_us.min(600_000) } else { h_us };
             let (hdr, class) = header_value(&mut r, d_in, d_out, h_us / 1000 + burn_ms);
-            let api = r.gen_range(0..3);
+            let api = r.gen_range(0..4);
             let mut req = Request::new(Bytes::from(format!("c{i}"))).with_header("x-nonce", i.to_string());
             req = if busy_call { req.with_header("x-busy-ms", (h_us / 1000).to_string()) } else { req.with_header("x-delay-us", h_us.to_string()) };
             if busy_call {
@@ -153,7 +159,17 @@ fn run(input: RunInput) -> ScenFuture {
             let res = match api {
                 0 => client.net.rpc(server.peer_id, req).await,
                 1 => client.net.peer(server.peer_id).unwrap().rpc(req).await,
-                _ => tower::ServiceExt::oneshot(client.net.peer(server.peer_id).unwrap(), req).await,
+                2 => tower::ServiceExt::oneshot(client.net.peer(server.peer_id).unwrap(), req).await,
+                _ => {
+                    // polled once in this task (a select! probe, futures::poll!), then handed to
+                    // another task that drives it to the end
+                    let (net, sid) = (client.net.clone(), server.peer_id);
+                    let mut fut = Box::pin(async move { net.rpc(sid, req).await });
+                    match futures::poll!(fut.as_mut()) {
+                        std::task::Poll::Ready(r) => r,
+                        std::task::Poll::Pending => tokio::spawn(fut).await.unwrap(),
+                    }
+                }
             };
             let t1 = w.now_ns();
             // let the cancellation (if any) reach the server before reading its log
@@ -443,12 +459,73 @@ fn run(input: RunInput) -> ScenFuture {
                 let _ = hnd.await;
             }
         }
+        // ---- a node that forwards: its handler passes the request object it received on to another
+        //      peer as it is. The forwarded call is an outbound call of the relay like any other:
+        //      its deadline is the smaller of the relay's outbound default and the header the
+        //      request carries, whatever else the received request brought along ----
+        let mut relay_nodes = Vec::new();
+        if !w.violated() && w.flag("relay_forwards_the_received_request", 0.2) {
+            let d_r = w.param("relay_outbound_default_ms", 100, 800) as u64;
+            let slow_ms = d_r + w.param("relay_target_extra_ms", 300, 1_500) as u64;
+            let plain = base_config(60_000, Some(5_000));
+            let s3 = w.start_node(w.spec_exact(6, plain.clone()), Svc::echo(&w)).unwrap();
+            let mut cfg_r = plain.clone();
+            cfg_r.outbound_request_timeout_ms = Some(d_r);
+            // (the relay's own inbound default, if any, is far away)
+            cfg_r.inbound_request_timeout_ms = w.flag("relay_has_inbound_default", 0.5).then_some(20_000);
+            let (s3_id, w3) = (s3.peer_id, w.clone());
+            let relay_svc = tower::service_fn(move |req: Request<Bytes>| {
+                let w3 = w3.clone();
+                async move {
+                    let net = req.extensions().get::<anemo::NetworkRef>().and_then(|n| n.upgrade());
+                    let t0 = w3.now_ns();
+                    let out = match net {
+                        Some(net) => match net.rpc(s3_id, req).await {
+                            Ok(r) => format!("ok:{:?}", r.status()),
+                            Err(e) => format!("err:{e:#}"),
+                        },
+                        None => "no-network".to_string(),
+                    };
+                    Ok::<_, std::convert::Infallible>(Response::new(Bytes::from(format!("{}|{out}", (w3.now_ns() - t0) / 1000))))
+                }
+            });
+            let relay = w.start_node(w.spec_exact(5, cfg_r), relay_svc).unwrap();
+            let c2 = w.start_node(w.spec_exact(7, plain), Svc::echo(&w)).unwrap();
+            if relay.net.connect_with_peer_id(s3.addr, s3.peer_id).await.is_err() || c2.net.connect_with_peer_id(relay.addr, relay.peer_id).await.is_err() {
+                w.harness_error("relay setup failed");
+            }
+            sleep_ms(200).await;
+            // the caller states no deadline, or one far beyond everything here
+            let hdr = r.gen_bool(0.5).then(|| (10_000 * MS).to_string());
+            let mut req = Request::new(Bytes::from_static(b"via-relay")).with_header("x-nonce", "7000").with_header("x-delay-ms", slow_ms.to_string());
+            if let Some(h) = &hdr {
+                req = req.with_header("timeout", h.clone());
+            }
+            let res = tokio::time::timeout(Duration::from_secs(30), c2.net.rpc(relay.peer_id, req)).await;
+            let key = format!("relay hdr={} relay_in={}", if hdr.is_some() { "above" } else { "absent" }, true);
+            match res {
+                Ok(Ok(resp)) => {
+                    let body = String::from_utf8_lossy(resp.body()).to_string();
+                    let (us, out) = body.split_once('|').unwrap_or(("0", "?"));
+                    let took_us: u64 = us.parse().unwrap_or(0);
+                    let timed_out = out.starts_with("err:") && out.contains("Timeout expired");
+                    if !timed_out || took_us < d_r * 1000 || took_us > d_r * 1000 + 6_000 {
+                        w.violate("caller-deadline-not-enforced", key, format!("a relay with an outbound default of {d_r} ms forwarded the request object it had received (timeout header {hdr:?}) to a peer whose handler needs {slow_ms} ms: its call ended with {out:?} after {} ms instead of a timeout error at {d_r} ms", took_us / 1000));
+                    }
+                }
+                other => w.violate("unexpected-rpc-outcome", key, format!("call through the relay: {:?}", other.map(|r| r.map(|x| x.status()).map_err(|e| format!("{e:#}"))))),
+            }
+            w.probe("relay-forwarded-the-received-request");
+            relay_nodes.push(s3);
+            relay_nodes.push(relay);
+            relay_nodes.push(c2);
+        }
         w.probe_n("cut-offs", cut);
         w.probe_n("skipped-near-boundary", skipped);
         if cut > 0 { w.mark_overlap(); }
         w.sample("calls", json!({"inbound_default_ms": d_in, "outbound_default_ms": d_out, "latency_us": [lat_min_us, lat_max_us], "calls": samples}));
         let out = w.finish();
-        drop((client, server, server2, retired_raw));
+        drop((client, server, server2, retired_raw, relay_nodes));
         out
     })
 }
